@@ -474,7 +474,23 @@ func (c *LNClient) pay(ctx context.Context, method, request string, amountMsat, 
 	case "error-failed":
 		p.Truth = ptFailed
 	}
-	return lightning.PaymentStatus{PaymentStatus: lightning.Failed}, errors.New("SIMFAULT-LN rpc error: transport is closing")
+	return errStatus(p.Hash), errors.New("SIMFAULT-LN rpc error: transport is closing")
+}
+
+// errStatus: the status value that accompanies a transport error. The real adapters differ (LND:
+// Failed; CLN: Pending or the zero value, which happens to read as Succeeded): only the error may
+// be believed. Chosen from the payment hash, so that it costs no tape draw.
+func errStatus(hash string) lightning.PaymentStatus {
+	if len(hash) == 0 {
+		return lightning.PaymentStatus{PaymentStatus: lightning.Failed}
+	}
+	switch hash[len(hash)-1] % 3 {
+	case 0:
+		return lightning.PaymentStatus{}
+	case 1:
+		return lightning.PaymentStatus{PaymentStatus: lightning.Pending}
+	}
+	return lightning.PaymentStatus{PaymentStatus: lightning.Failed}
 }
 
 func (n *LNNet) preimage(p *LNPayment) string {
@@ -536,7 +552,7 @@ func (c *LNClient) OutgoingPaymentStatus(ctx context.Context, hash string) (ligh
 	case "notfound":
 		return lightning.PaymentStatus{PaymentStatus: lightning.Failed}, lightning.OutgoingPaymentNotFound
 	case "error":
-		return lightning.PaymentStatus{PaymentStatus: lightning.Failed}, errLNInjected
+		return errStatus(hash), errLNInjected
 	case "failed":
 		return lightning.PaymentStatus{PaymentStatus: lightning.Failed, PaymentFailureReason: "no route"}, nil
 	case "pending":
